@@ -35,7 +35,7 @@ def script_for(expr, code, style, rng, n_ids, n_cells):
     ids = list(range(n_ids))
     rng.shuffle(ids)
     for k in ids:
-        q({"op": "braille", "id": "${ID:%d}" % k}, ("hl", 1))
+        q({"op": "braille", "id": "${ID:%d}" % k}, ("hl", 1, k))
     for bad in ("no-such-id", "${OLDID:1}", " "):
         q({"op": "braille", "id": bad}, ("hl", 0))
     # positions and routing at several navigation positions
@@ -56,6 +56,8 @@ def script_for(expr, code, style, rng, n_ids, n_cells):
             cells = rng.sample(cells, min(len(cells), 10))
         for p in cells:
             q({"op": "node_from_braille", "pos": p}, ("route", p))
+            # ... and the node it answered is brailled (what assistive technology does next): the same string as ever
+            q({"op": "braille", "id": "${ROUTED}"}, ("hlr",))
     ops += [{"op": "braille", "id": ""}, {"op": "speech"}]
     tags += [("endplain",), ("endspeech",)]
     return {"ops": ops, "tags": tags, "code": code, "style": style, "expr": expr}
@@ -104,6 +106,7 @@ def run(tier):
             return (p["v"] if p["r"] == "ok" else "?" + p["r"]), (json.dumps(nv["v"]) if nv["r"] == "ok" else "?" + nv["r"])
         base = {"k": "", "style": s["style"], "res": "ok", "out": "", "a": 0, "b": 0, "n": 0, "id": "", "ids": [], "pref": "", "nav": "", "sp": ""}
         navbraille_len = None
+        last_routed = ""
         for i, t in enumerate(tags):
             if t is None or t[0] in ("r", "speech"):
                 continue
@@ -119,8 +122,14 @@ def run(tier):
                 back.append((si, i))
             elif t[0] == "hl":
                 pf, nv = readback(i)
-                events.append(dict(base, k="hl", res=rr["r"], out=rr["v"] if rr["r"] == "ok" else "", a=t[1], pref=pf, nav=nv))
+                events.append(dict(base, k="hl", res=rr["r"], out=rr["v"] if rr["r"] == "ok" else "", a=t[1], pref=pf, nav=nv,
+                                   id=ids[t[2] % len(ids)] if len(t) > 2 and ids else ""))
                 back.append((si, i))
+            elif t[0] == "hlr":
+                if last_routed:
+                    pf, nv = readback(i)
+                    events.append(dict(base, k="hl", res=rr["r"], out=rr["v"] if rr["r"] == "ok" else "", a=1, pref=pf, nav=nv, id=last_routed))
+                    back.append((si, i))
             elif t[0] == "nav":
                 pf, nv = readback(i)
                 events.append(dict(base, k="nav", res="ok", pref=pf, nav=nv))
@@ -137,6 +146,8 @@ def run(tier):
                 back.append((si, i))
             elif t[0] == "route":
                 pf, nv = readback(i)
+                if rr["r"] == "ok":
+                    last_routed = rr["v"][0]
                 events.append(dict(base, k="route", res=rr["r"], a=min(t[1], 10 ** 6), id=rr["v"][0] if rr["r"] == "ok" else "", pref=pf, nav=nv))
                 back.append((si, i))
             elif t[0] == "endplain":
@@ -192,9 +203,10 @@ def selftest(tier):
     wd = C.workdir("c20_self")
     base = {"k": "", "style": "Off", "res": "ok", "out": "", "a": 0, "b": 0, "n": 0, "id": "", "ids": [], "pref": "Off", "nav": "x", "sp": "s"}
     ev = [dict(base, k="expr", ids=["a", "b"], out="PLAIN", n=5), dict(base, k="hl", a=1, out="PLAIN"),
-          dict(base, k="hl", a=1, out="OTHER"), dict(base, k="route", a=2, id="zz"), dict(base, k="route", a=2, id="a", pref="EndPoints")]
+          dict(base, k="hl", a=1, out="OTHER"), dict(base, k="route", a=2, id="zz"), dict(base, k="route", a=2, id="a", pref="EndPoints"),
+          dict(base, style="All", k="hl", a=1, id="b", out="X1"), dict(base, style="All", k="hl", a=1, id="a", out="X2"), dict(base, style="All", k="hl", a=1, id="b", out="X3")]
     rej, _, _ = C.validate_trace("Trace_Route", "Trace_Route.cfg", ev, wd)
-    if [i for i, _ in rej] != [3, 4, 5]:
+    if [i for i, _ in rej] != [3, 4, 5, 8]:
         raise C.ToolError(f"selftest: {rej}")
     C.log("[C20] selftest ok")
     return 0
